@@ -17,6 +17,7 @@ from ..core import VB, nproc
 from ..par import pmap, chunks
 from .. import drv, shapes
 from .. import isacheck as I
+from ..spec.operands import pre_table_diffs
 from . import c03
 
 IMEM = 0x100000
@@ -30,6 +31,14 @@ BCD9 = [0x00, 0x01, 0x09, 0x10, 0x45, 0x50, 0x90, 0x98, 0x99]
 
 def judge(c: I.Case, vb: VB, part: str) -> str:
     o = I.run_case(c)
+    if part == "A" and getattr(o, "ops", None) is not None and o.ins is not None:
+        # the reference interprets the rendered operands; for `(m),(n)` under a prefix byte the operands themselves are fixed by the
+        # documented prefix table, so a result computed from another cell than the table names is a wrong result
+        t = pre_table_diffs(getattr(o.ins, "_pre", None), o.ops)
+        for kind, what in t:
+            vb.add(f"C04/{kind}/{o.mn}/op={o.ins.opcode:02X}/pre={o.ins._pre:02X}", f"[A] {c.data.hex()} '{o.text}': {what}", c.witness)
+        if t:
+            return "bad"
     if o.skip:
         return "skip"
     d = I.value_diffs(o, c, o.ref)
@@ -51,7 +60,7 @@ def _shard_a(args):
     vb = VB()
     n = ok = 0
     for pre, op in pairs:
-        for d in shapes.shapes_for(pre, op, tail):
+        for shape_no, d in enumerate(shapes.shapes_for(pre, op, tail)):
             ins, _ = drv.py_decode(d, I.CODE)
             d = d[: ins.length()]
             for st in sts:
@@ -60,7 +69,7 @@ def _shard_a(args):
                 ok += r == "ok"
             # counted transfers with more than 256 elements: the count ends at 0 and an auto-modified pointer moves by I
             if ins.name() in ("MVL", "MVLD"):
-                for big in c03.LARGE_I:
+                for big in c03.LARGE_I + ((c03.HUGE_I,) if pre is None and shape_no % 8 == 4 else ()):
                     c, o = c03.large_case(d, sts[0], ins.name(), big)
                     n += 1
                     if o.skip:
@@ -368,7 +377,7 @@ def replay(ctx, w) -> Optional[str]:
             return None
         _acc, val = I.large_count_diffs(o, c)
         return f"'{o.text}': {val[0][1]}" if val else None
-    judge(c, vb, "replay")
+    judge(c, vb, "A")
     for sig, (cnt, wl) in vb.d.items():
         return wl[0][0]
     return None
